@@ -119,7 +119,13 @@ def handle : Handler := fun op args impl =>
         match refs with
         | [ref] =>
           let a := c.aligner ref.2 seq
-          if DyadicScheme a ref.2.length seq.length && premise a ref.2 seq && !c.reverse then
+          let self (b : Aligner) : Int := (ref.2.map fun x => subOf b x x).foldl (· + ·) 0
+          -- both strands: the hypothesis `hrev` of `phase_nt_verbatim_trimmed_at_orf_start_partial`
+          let okRev := !c.reverse ||
+            (let t := revcompIgnoringError seq
+             let b := c.aligner ref.2 t
+             DyadicScheme b ref.2.length t.length && domB b ref.2 t && decide (self b ≤ self a))
+          if DyadicScheme a ref.2.length seq.length && premise a ref.2 seq && okRev then
             let off := (occurrences ref.2 seq).getD 0 0
             let nt := if c.cutend then ref.2 else seq.drop off
             verdictOf (impl.startsWith s!"ok v={v} {off}|{encSeq nt}|") "verbatim-orf-not-trimmed-at-its-start"
